@@ -9,7 +9,7 @@ HALF = Fraction(1, 200)
 BOUNDS = {
     "quick": "evo_aspirate / evo_dispense from an arbitrary valid state of a plate 4x2 or a trough with 4 virtual rows x 2 columns: n<=2 wells (n=3 on the plate with per-tip volumes and tips 1,2,3) chosen from "
              "{A01,B01,C01,A02} in any order with repeats, n tips each an unbounded symbolic int, volumes scalar or per tip (symbolic), grid / site / arm "
-             "unbounded symbolic ints; the liquid class as an abstract string (length 0..40, may contain ';'); evo_wash with all thirteen parameters symbolic (ints unbounded, volumes real) and tips of length 1..2",
+             "unbounded symbolic ints; the liquid class as an abstract string (length 0..40, may contain ';'); evo_wash with all thirteen parameters symbolic (ints unbounded, volumes real) and tips of length 1..2; scalar-volume commands are preceded by an earlier command for the same geometry in the same process (rejected for an unknown well after a valid one, rejected for two columns, or accepted)",
     "thorough": "n<=3 wells / tips, Tip members mixed with ints, plate 8x2",
 }
 OUTSIDE = "more wells/tips per command, other geometries, labware with more than 2 columns"
